@@ -32,6 +32,12 @@ CLAIMED["C05"] = dict(
    note=NOTE + " Leg B: the interleaving is the real scheduler's (not tape-controlled); a report is sound, a clean leg is only as strong as the race detector's happens-before analysis over the executed accesses; simrt takes no lock and draws from no shared tape in that mode so that it adds no happens-before edges.",
    tech=TECH + "; plus a free-running -race leg over the same seeded worlds for the data-race clause")
 
+CLAIMED["C15"] = dict(
+   text="Seeded search over histories of append / pause / remove-after-drain / re-create applied by a simulated writer while the real notify and polling follow readers run under the tape-driven scheduler with the fake clock; at every Read return the delivered bytes must be a prefix of the appended bytes (no loss, duplicate or reordering; no EOF or error while the file exists), and within 10 simulated seconds after the last operation everything appended must have been delivered (plain follow after a final remove: io.EOF). Evidence over explored runs, not proof.",
+   ref="DESIGN.md section 5 C15",
+   note=NOTE + " The fsnotify/inotify stub is trusted to be faithful for create/write/remove on one directory (FIFO, no loss, coalescing of an event identical to the newest unread one, non-remove events dropped when the file is gone at processing time, as fsnotify v1.4.9 does). Real kernel timing is not covered.",
+   tech="deterministic simulation with fault injection: real follow readers on real scratch files inside one testing/synctest bubble, stubbed inotify event queue, writer client and reader scheduled by one seeded tape, fake clock for poll delays, prefix invariant at every step plus bounded liveness, tape shrinking and fresh-process replay")
+
 NA = {
  "C03": "check under construction in this session (whole-CLI metamorphic world); will be claimed once its quick tier is green",
  "C06": "check under construction in this session",
@@ -43,7 +49,6 @@ NA = {
  "C12": "dissect vs its specification is pure per (pattern, line); its slice-lifetime clause is exercised through C02's retained matches",
  "C13": "check under construction in this session",
  "C14": "renderers are pure functions of aggregator state and scale",
- "C15": "check under construction in this session",
  "C16": "validity/faithfulness of JSON text are pure functions of the captured bytes; the determinism clause (map order) is exercised replayably by C03's {.}-keyed scenario under the map-order seam",
  "C17": "list semantics of array helpers are pure; the concurrent-evaluation clause is the shared-pool concurrency that C10's world and C05's race leg exercise",
  "C18": "calendar arithmetic over instants and zones is pure (no clock is read; now/live/delta belong to C10)",
